@@ -231,12 +231,12 @@ func ruleG2(r *Run) {
 				ok = false
 			}
 			// the closure must be used only as argument of (*errgroup.Group).Go inside run
-			mc := theClosures.site[host]
-			if mc == nil {
+			_, uses, okv := funcValueUses(host)
+			if !okv || len(uses) == 0 {
 				ok = false
 				continue
 			}
-			for _, ref := range *mc.Referrers() {
+			for _, ref := range uses {
 				call, isCall := ref.(*ssa.Call)
 				if !isCall {
 					ok = false
